@@ -17,6 +17,7 @@ import (
 	"github.com/hashicorp/consul/internal/verifmc/c08"
 	"github.com/hashicorp/consul/internal/verifmc/c10"
 	"github.com/hashicorp/consul/internal/verifmc/c13"
+	"github.com/hashicorp/consul/internal/verifmc/c20"
 	"github.com/hashicorp/consul/internal/verifmc/ev"
 )
 
@@ -36,6 +37,7 @@ var checks = map[string]checkDef{
 	"C08": {"exploration", c08.Run},
 	"C10": {"exploration", c10.Run},
 	"C13": {"exploration", c13.Run},
+	"C20": {"fault_enumeration", c20.Run},
 }
 
 func main() {
